@@ -11,9 +11,9 @@ pub fn crash_history_strategy(max: usize) -> impl Strategy<Value = Vec<Op>> {
     let op = prop_oneof![
         200 => mut_op_strategy(),
         10 => Just(Op::MakeReadOnly),
-        // a batch whose oplog entry alone exceeds the 64 KiB threshold that forces a flush, and one
+        // batches whose oplog entry alone stays just below (830) or exceeds (900, 1000) the 64 KiB threshold that forces a flush, and one
         // that takes the log across the 252/253 varint boundary
-        1 => prop_oneof![Just(Op::Big(830)), Just(Op::Big(251))],
+        2 => prop_oneof![Just(Op::Big(830)), Just(Op::Big(251)), Just(Op::Big(900)), Just(Op::Big(1000))],
         // a batch that fills part of one 32-bit bitfield word
         4 => (9u32..=31).prop_map(Op::Big),
     ];
@@ -107,7 +107,8 @@ pub fn run_chain(steps: &[ChainStep], local: &mut Local) -> Check {
             Err(p) => return Err(panic_failure(&format!("{ctxt}: reopening"), &p)),
         };
         let upto = before_model.len().max(after_model.len()) + 3;
-        let obs = crate::hc::observe(&mut core, upto, false).map_err(|p| panic_failure(&format!("{ctxt}: observing"), &p))?;
+        let differ = crate::crash::differing_indices(&before_model, &after_model);
+        let obs = crate::hc::observe_with(&mut core, upto, false, &differ).map_err(|p| panic_failure(&format!("{ctxt}: observing"), &p))?;
         let cands: Vec<&crate::model::ListModel> = if cut == b { vec![&before_model] } else if cut == e { vec![&after_model] } else { vec![&before_model, &after_model] };
         let mut matched = None;
         let mut diffs = vec![];
